@@ -193,5 +193,17 @@ CHECKS["C16"] = {
             "TLC decodes extension 1.3.36.8.3.3 with explicit tags and string types enforced and compares every member.",
     "note": _GEN_NOTE,
 }
+CHECKS["C01"] = {
+    "engine": "tlc-spec", "category": "exploration", "design_ref": "6/C01, 3 (ChainJudge.tla, Repo.tla), 7",
+    "technique": "ChainJudge.tla decides which chain facts must hold for a forest (and when the run must fail); facts from the independent verifier; "
+                 "life-cycle part model-checked in Repo.tla (ChainOnRun) and trace-validated by the C12/C15 explorations",
+    "text": "Two-level trees over issuer key x subject key x signature algorithm including all misfits (the run must fail and the misfit certificate must "
+            "not appear), roots over 14 keys x 9 signature settings, seeded forests of 3-6 entities with distinct DNs in nested directories with and without "
+            "profile, and issuers imported from the standard library with four subject string types. For every produced certificate: signature verifies "
+            "under the issuer's current certificate with the algorithm named, issuer DN bytes = issuer's subject DN bytes, SKI/AKI = SHA-1 of the right "
+            "key bits, child AKI = issuer SKI.",
+    "note": _GEN_NOTE + "; TLC cannot evaluate RSA/ECDSA/SHA-1: the arithmetic is the trusted projection (standard library; own math/big ECDSA for brainpool, "
+            "self-checked constants), the specification decides who must verify under whom",
+}
 for e in ENGINES:
     e["serves_properties"] = sorted(CHECKS)
